@@ -20,9 +20,9 @@ ASSUMPTIONS = [
 ]
 
 
-def check_volume(vol, data, temp, where):
+def check_volume(vol, data, temp, where, graph_order=0):
     F = gcall(vol.get_free_energy, temperature=temp)
-    Fd = np.asarray(F.data)
+    Fd = np.array(F.data)  # a copy: building graphs is a read-only use of the free-energy volume
     data = np.asarray(data)
     if Fd.shape != data.shape:
         raise Violation('shape', f'{where}: {Fd.shape}')
@@ -60,7 +60,9 @@ def check_volume(vol, data, temp, where):
         if u.min() < 1e20:
             raise Violation('unvisited-prohibitively-large', f'{where}: unvisited voxel has F = {u.min()!r}')
     # graphs
-    for thr in (None, 1e7, float(np.median(got)) if got.size else 1.0):
+    thrs = [None, 1e7, float(np.median(got)) if got.size else 1.0]
+    thrs = [thrs[i] for i in [(0, 1, 2), (1, 0, 2), (2, 1, 0), (2, 0, 1), (1, 2, 0), (0, 2, 1)][graph_order % 6]] + [None]  # (the default threshold once more at the end)
+    for thr in thrs:
         kw = {} if thr is None else {'max_energy_threshold': thr}
         for diag in (True, False):
             G = gcall(F.free_energy_graph, diagonal=diag, **kw)
@@ -74,6 +76,8 @@ def check_volume(vol, data, temp, where):
             for n in list(G.nodes)[:5]:
                 if abs(G.nodes[n]['energy'] - Fd[n]) > 0:
                     raise Violation('graph-node-energy', f'{where}: node {n}')
+            if not np.array_equal(np.asarray(F.data), Fd):
+                raise Violation('free-energy-unchanged-by-graph', f'{where}: building the graph with threshold {lim!r} modified the free-energy volume')
     return F
 
 
@@ -83,6 +87,9 @@ def run(case):
     lat = cases.lattice(case['lattice'])
     dt = np.dtype(case['dtype'])
     data = np.array(case['data']).astype(dt)
+    if case.get('scale') and dt == np.float64:
+        # densities in other units: the property is about ratios (probabilities), whatever the absolute scale
+        data = (np.minimum(data, 1e3) if case['scale'] > 1 else data) * case['scale']
     temp = case['temperature']
     if case.get('from_trajectory'):
         c = case['from_trajectory']
@@ -96,10 +103,10 @@ def run(case):
         elif case.get('layout') == 'T':
             d0 = np.ascontiguousarray(d0.transpose(2, 1, 0)).transpose(2, 1, 0)  # a transposed view: same values, other memory order
         vol = Volume(data=d0, lattice=lat)
-    check_volume(vol, data, temp, 'first density')
+    check_volume(vol, data, temp, 'first density', case.get('graph_order', 0))
     if not np.array_equal(np.asarray(vol.data), data):
         raise Violation('density-unchanged', 'get_free_energy modified the density')
-    labels = [str(dt), 'layout-' + case.get('layout', 'C')]
+    labels = [str(dt), 'layout-' + case.get('layout', 'C')] + (['scaled-density'] if case.get('scale') and dt == np.float64 else [])
     if case.get('second') is not None:
         d2 = np.array(case['second']).astype(dt)
         total = data.astype(np.float64) + d2.astype(np.float64)
@@ -137,7 +144,10 @@ def grids(draw, tier):
         return np.array(v).reshape(shape).tolist()
 
     case = {'lattice': draw(gen.lattices()), 'dtype': dtype, 'layout': draw(st.sampled_from(['C', 'C', 'F', 'T'])), 'data': grid(), 'temperature': draw(st.one_of(st.floats(1.0001, 2000.0), st.sampled_from([1.5, 300.0, 2000.0])))}
-    if draw(st.booleans()):
+    case['graph_order'] = draw(st.integers(0, 5))
+    if dtype == 'float64' and draw(st.integers(0, 3)) == 0:
+        case['scale'] = draw(st.sampled_from([2.0**-1040, 1e-300, 1e-30, 1e30, 1e300]))
+    elif draw(st.booleans()):
         case['second'] = grid()
         case['second_mode'] = draw(st.sampled_from(['assign', 'accumulate']))
         case['temperature2'] = draw(st.sampled_from([case['temperature'], 77.0, 900.0]))
@@ -168,7 +178,7 @@ def small_case(tier, idx):
         vals[0] = 1
     shape = [(2, 2, 1), (1, 4, 1), (4, 1, 1), (1, 2, 2), (2, 1, 2), (1, 1, 4)][variant]
     lat = {'family': 'cubic', 'orient': 'lower', 'params': [5, 5, 5, 90, 90, 90], 'matrix': [[5.0, 0, 0], [0, 5.0, 0], [0, 0, 5.0]]}
-    return {'lattice': lat, 'dtype': ['int64', 'float64'][variant % 2], 'layout': 'C', 'data': np.array(vals).reshape(shape).tolist(), 'temperature': [1.5, 300.0, 2000.0][variant % 3]}
+    return {'lattice': lat, 'dtype': ['int64', 'float64'][variant % 2], 'layout': 'C', 'data': np.array(vals).reshape(shape).tolist(), 'temperature': [1.5, 300.0, 2000.0][variant % 3], 'graph_order': sum(vals) % 6}
 
 
 SUBS = [
